@@ -13,6 +13,8 @@ fault:  ['get'] connection error | ['status'] HTTP error | ['nolen'] no content-
         at model-level effect k (sub / cls: see lib/crashfs.py; bytes not yet flushed by the code
         survive only as the prefix class cls) | ['flusherr', cls] the close of the written file fails
         with an I/O error after the prefix class cls of the unflushed bytes reached the disk
+        | ['readp', j] PERSISTENT read failure: every raw.read call from the j-th on raises
+        (ConnectionResetError / TimeoutError / OSError in rotation), in every response of the call
         | ['once', <get|status|nolen|read j>] TRANSIENT: only the first response of the call
         misbehaves, every later request of the same call is served correctly.
 """
@@ -154,6 +156,10 @@ class _Raw:
     env.rec.effect(('read', j))
     if self._fault == ['read', j]:
       raise _IOFault('connection reset (injected)')
+    if self._fault and self._fault[0] == 'readp' and j >= self._fault[1]:
+      # PERSISTENT: every read from call j on fails, with the OSError family in rotation
+      exc = (ConnectionResetError, TimeoutError, OSError)[(j - self._fault[1]) % 3]
+      raise exc(f'read {j} failed (injected, persistent)')
     if n is None or n < 0:
       n = len(env.payload)
     b = env.payload[self._pos:self._pos + n]
@@ -645,7 +651,7 @@ def encode(case, obs):
         s = False
       elif f == ['nolen']:
         ln = 'None'
-      elif f and f[0] == 'read':
+      elif f and f[0] in ('read', 'readp'):   # on code without a retry the first failing read ends the call
         rd = rd[:f[1]] + [None] if f[1] <= len(rd) else rd + [0] * (f[1] - len(rd)) + [None]
       c = f'KDownload {fw.cbool(g)} {fw.cbool(s)} {ln} {_optlist(rd)} {closes}'
     else:
@@ -699,7 +705,7 @@ def _single_faults(case, full, rot):
   fs = []
   if kind == 'download':
     inner = [['get'], ['status'], ['nolen']] + [['read', j] for j in range(nreads)]
-    fs += inner + [['once'] + f for f in inner]
+    fs += inner + [['once'] + f for f in inner] + [['readp', j] for j in range(nreads)]
   else:
     fs += [['zerr', j] for j in range(nreads)] + [['corrupt', 1, 2], ['corrupt', 9, 10]]
   fs += [['flusherr', c] for c in range(3)]
